@@ -1,0 +1,46 @@
+//go:build verif
+
+// Contracts for the deductive verifier in /verif (comment-only file; it
+// contributes no code to any build). Syntax: see /verif/DESIGN.md.
+//
+// Property C19, reads of a part of a composite object (GetFromComposite): the
+// same routing as for plain reads. The demultiplexer routes by the parent's
+// instance name and patches both digests with the chosen backend's patcher;
+// the hierarchical decorator starts at the most specific name of both chains
+// and its error handler moves both chains one level up per NOT_FOUND.
+// (Parent and child are expected to carry the same instance name: their
+// ancestor chains have the same length.)
+package blobstore
+
+// Property C18: the authorizing decorator consults, for each kind of
+// operation, the authorizer that was configured for that kind.
+//@ func NewAuthorizingBlobAccess
+//@   ensures [each-authorizer-in-its-own-slot] result != nil && typeis(result, "*blobstore.authorizingBlobAccess")
+//@         && result.getAuthorizer == getAuthorizer && result.putAuthorizer == putAuthorizer
+//@         && result.findMissingAuthorizer == findMissingAuthorizer && result.BlobAccess == base
+
+//@ func (*demultiplexingBlobAccess).GetFromComposite
+//@   requires ba.getBackend != nil
+//@   ensures result != nil
+//@   ensures [routed-by-the-parents-instance-name] dmName == dgInst(parentDigest.value)
+//@   ensures [unknown-name-refused] dmErr != nil ==> typeis(result, "buffer.errorBuffer")
+//@   ensures [patched-digests-to-the-chosen-backend] dmErr == nil ==> baDigest(dmBackend) == patchD(dmPatcher, parentDigest.value)
+//@         && baChild(dmBackend) == patchD(dmPatcher, childDigest.value)
+
+//@ func (*hierarchicalInstanceNamesBlobAccess).GetFromComposite
+//@   requires ba.BlobAccess != nil && chainLen(parentDigest.value) == chainLen(childDigest.value)
+//@   ensures result != nil
+//@   ensures [most-specific-name-first] baCalls(ba.BlobAccess) == old(baCalls(ba.BlobAccess)) + 1
+//@         && baDigest(ba.BlobAccess) == parentDigest.value && baChild(ba.BlobAccess) == childDigest.value
+//@ func (*hierarchicalInstanceNamesGetFromCompositeErrorHandler).OnError
+//@   requires len(eh.parentDigests) >= 1 && len(eh.childDigests) == len(eh.parentDigests) && eh.blobAccess != nil && err != nil
+//@   ensures [failure-surfaced] code(err) != NotFound ==> result0 == nil && result1 != nil && code(result1) == code(err)
+//@         && len(eh.parentDigests) == old(len(eh.parentDigests)) && baCalls(eh.blobAccess) == old(baCalls(eh.blobAccess))
+//@   ensures [exhausted-means-not-found] code(err) == NotFound && old(len(eh.parentDigests)) == 1 ==> result0 == nil && result1 == err
+//@         && baCalls(eh.blobAccess) == old(baCalls(eh.blobAccess))
+//@   ensures [one-level-up] code(err) == NotFound && old(len(eh.parentDigests)) > 1 ==> result1 == nil && result0 != nil
+//@         && len(eh.parentDigests) == old(len(eh.parentDigests)) - 1 && len(eh.childDigests) == len(eh.parentDigests)
+//@         && base(eh.parentDigests) == old(base(eh.parentDigests)) && base(eh.childDigests) == old(base(eh.childDigests))
+//@         && baCalls(eh.blobAccess) == old(baCalls(eh.blobAccess)) + 1
+//@         && baDigest(eh.blobAccess) == eh.parentDigests[len(eh.parentDigests) - 1].value
+//@         && baChild(eh.blobAccess) == eh.childDigests[len(eh.childDigests) - 1].value
